@@ -33,6 +33,8 @@ pub const FRAMES: usize = 50;
 pub const RESID_MAX: f64 = TAU;
 /// Requested eigenvalues below DYN·λ₁ put a case into the "wide dynamic range" class (see check_pca).
 pub const DYN: f64 = 1e-4;
+/// Design domain: singular ratio sigma_1/sigma_k <= 1e3, i.e. lambda_k >= RANGE_MIN·lambda_1.
+pub const RANGE_MIN: f64 = 1e-6;
 
 fn to_array(x: &Mat, n: usize, p: usize) -> Array2<f64> {
     Array2::from_shape_fn((n, p), |(i, j)| x.get(i).and_then(|r| r.get(j)).copied().unwrap_or(0.0))
@@ -143,9 +145,16 @@ pub fn check_pca(c: &Case, obs: &mut Obs) {
     obs.class_if(k > 1 && k < p && p % k != 0, "k_does_not_divide_p");
     let wide_range = lam[k - 1] < DYN * lam1;
     obs.class_if(wide_range, "wide_range(lambda_k<1e-4*lambda_1)");
+    // Domain bound of the design (singular ratio <= 1e3): when the smallest requested eigenvalue is below
+    // RANGE_MIN·λ₁ the case is outside it (it arises from sampling fluctuation, n close to p); only the
+    // obligations that do not depend on the eigen-solver are judged there.
+    let in_range = lam[k - 1] >= RANGE_MIN * lam1;
+    obs.class_if(!in_range, "beyond_singular_ratio_1e3");
     let model = match vengine::guard(|| Pca::params(k).whiten(c.whiten).fit(&ds)) {
         Err(m) => {
-            if small_problem && m.contains("NaN values in array") {
+            if !in_range && m.contains("NaN values in array") {
+                obs.skip("beyond_singular_ratio_1e3:fit_panic_nan");
+            } else if small_problem && m.contains("NaN values in array") {
                 obs.class("fit_panic_nan");
                 obs.fail(
                     "pca:solver-breakdown:nan-panic",
@@ -186,7 +195,7 @@ pub fn check_pca(c: &Case, obs: &mut Obs) {
     // The solver drops singular values below ~1e-5·σ₁ (rank cut-off, pinned by
     // test_explained_variance_cutoff); the generator keeps σ_p/σ_1 ≥ ~1e-4, so all k are expected.
     if kk < k {
-        if lam[k - 1] > 1e-8 * lam1 {
+        if in_range {
             obs.fail(
                 "pca:component-count",
                 format!("{kk} components returned for embedding size {k}; covariance eigenvalues {:?}", lam),
@@ -234,13 +243,16 @@ pub fn check_pca(c: &Case, obs: &mut Obs) {
     }
     obs.class_if(resid > 1e-10, "residual>1e-10");
     obs.class_if(resid > 1e-7, "residual>1e-7");
-    let mut spectral = resid <= RESID_MAX;
+    let mut spectral = in_range && resid <= RESID_MAX;
+    obs.class_if(!in_range && resid > RESID_MAX, "beyond_singular_ratio_1e3:solver_inaccurate");
     // Second face of the same breakdown: every direction is an eigenvector, but sigma_j belongs to another one
     // (the value of eigenpair 2 with the vector of eigenpair 3). This is attributed to the solver only where the
     // breakdown is systematic (k does not divide p, or requested eigenvalues below DYN·λ₁); elsewhere the
     // obligations below name the deviation.
     let breakdown_prone = (k > 1 && k < p && p % k != 0) || wide_range;
-    if spectral && mismatch > RESID_MAX && breakdown_prone {
+    if !in_range {
+        // not judged spectrally
+    } else if spectral && mismatch > RESID_MAX && breakdown_prone {
         spectral = false;
         obs.class("solver_failed:value_vector_mismatch");
         obs.fail(
@@ -248,6 +260,28 @@ pub fn check_pca(c: &Case, obs: &mut Obs) {
             format!(
                 "n={n}, p={p}, embedding size {k}, whiten={}: the returned components are eigenvectors of the sample covariance, but some sigma_j^2/(n-1) differs from \
                  the variance along its own component by {mismatch:.3e} (relative); sigma^2/(n-1) = {:?}, covariance eigenvalues = {:?}",
+                c.whiten,
+                sigma.iter().map(|s| s * s / nm1).collect::<Vec<_>>(),
+                lam
+            ),
+        );
+    } else if spectral && small_problem && mismatch <= RESID_MAX && {
+        // Third face: genuine eigenpairs, consistently paired and sorted, but not the *leading* ones — some
+        // sigma_j^2/(n-1) is an eigenvalue of the covariance further down the spectrum (LOBPCG locked onto
+        // eigenpair 3 and never saw eigenpair 2). Recognised by the exact wrong value.
+        let l: Vec<f64> = sigma.iter().map(|s| s * s / nm1).collect();
+        let off: Vec<usize> = (0..kk).filter(|&j| (l[j] - lam[j]).abs() > RESID_MAX * lam[j]).collect();
+        !off.is_empty()
+            && off.iter().all(|&j| (j + 1..p).any(|m| (l[j] - lam[m]).abs() <= RESID_MAX * lam[m]))
+            && (1..kk).all(|j| sigma[j - 1] >= sigma[j])
+    } {
+        spectral = false;
+        obs.class("solver_failed:non_leading_eigenpair");
+        obs.fail(
+            "pca:solver-breakdown:non-leading-eigenpair",
+            format!(
+                "n={n}, p={p}, embedding size {k}, whiten={}: the returned pairs are eigenpairs of the sample covariance but not the leading ones; \
+                 sigma^2/(n-1) = {:?}, covariance eigenvalues = {:?}",
                 c.whiten,
                 sigma.iter().map(|s| s * s / nm1).collect::<Vec<_>>(),
                 lam
@@ -557,22 +591,27 @@ pub fn property() -> Property {
     Property {
         id: "C18",
         rule: "cases = (n 5..=80, p 1..=8, n > p, embedding size 1..=p with k=1 and k=p over-weighted, whitening on/off, shape in \
-               {isotropic, rotated anisotropic with singular ratio <= 1e3, low-rank + noise >= 1e-3, columns scaled by 10^(-1.5..1.5)}, \
-               column offsets {none, |o|<=10, |o|<=1000}, global scale 10^{-1,0,1,2}); the record matrix is derived deterministically from \
-               generated gaussians. Reference = covariance + own Jacobi eigen-decomposition. Non-trivial = (k < p with spectral gap at k > 1e-3*lambda_1) \
-               or k = 1 or whitening on; distinct = distinct canonical JSON of the case. The error class (empty data, k = 0, k > p) is enumerated.",
+               {isotropic, rotated anisotropic with population singular ratio <= 10^2.7, low-rank signal + noise 2e-3..1e-1 of the top signal singular value, \
+               columns scaled by 10^(-2.5..0)}, column offsets {none, |o|<=10, |o|<=1000}, global scale 10^{0,1,2}); the record matrix is derived \
+               deterministically from generated gaussians. Reference = two-pass covariance + own Jacobi eigen-decomposition. Non-trivial = (k < p with spectral gap \
+               at k > 1e-3*lambda_1) or k = 1 or whitening on; distinct = distinct canonical JSON of the case. The error class (empty data, k = 0, k > p, with valid \
+               neighbours) is enumerated.",
         assumptions: vec![
-            format!("solver-derived quantities are compared with TAU = {TAU:e}: variances +- TAU*lambda_1, V V^T and whitened covariance +- TAU (LOBPCG stops at 1e-5)"),
-            format!("span(V) vs leading eigenspace: Frobenius distance of projectors <= TAU*lambda_1/gap, asserted only when gap > {GAP_MIN:e}*lambda_1 (or k = p)"),
-            format!("formula re-computations (scores, mean, inverse transform, explained variance vs sigma^2/(n-1)) use |a-b| <= {FORMULA_EPS:e} * sum of term magnitudes"),
-            "with whitening the rows of components() are rescaled by design; orthonormality is asserted for their directions (rows / norm)".into(),
-            "explained-variance ratios only have to be finite, >= 0 and proportional to sigma_j^2 (any positive common factor)".into(),
-            "domain: n > p >= 1, n >= 5, data scale 0.03..3000, smallest/largest singular value >= ~1e-4, so the solver's rank cut-off (pinned by test_explained_variance_cutoff) is not reached and exactly k components are expected".into(),
-            "no run is skipped as unconverged: on this domain every fit was observed to satisfy the residual bound; the residual is recorded as a class".into(),
-            "trusted base: ndarray, vengine::num::{covariance, jacobi_eigh}".into(),
+            format!("solver-derived quantities are compared with TAU = {TAU:e}: variances and score covariances +- TAU*lambda_1, V V^T and the whitened covariance +- TAU (LOBPCG stops at 1e-5)"),
+            format!("span(V) vs leading eigenspace: Frobenius distance of the projectors <= 5*TAU*lambda_1/gap, asserted only when gap > {GAP_MIN:e}*lambda_1 (k = p: <= TAU*p)"),
+            format!("formula re-computations (scores, mean, inverse transform, explained variance vs sigma^2/(n-1)) use |a-b| <= {FORMULA_EPS:e} * sum of term magnitudes; inverse transform additionally +- TAU*max|x - mean|"),
+            "with whitening the rows of components() are rescaled by design; orthonormality, eigenspace and optimality are asserted for their directions (rows / norm)".into(),
+            "explained-variance ratios only have to be finite, >= 0, not all zero and proportional to sigma_j^2 (any positive common factor)".into(),
+            "inverse_transform(transform(X)) is required to be the orthogonal projection about the mean for whitened models too (statement quantifies over whitening on/off; DESIGN restricted it to un-whitened models)".into(),
+            format!("design domain singular ratio <= 1e3: when lambda_k < {RANGE_MIN:e}*lambda_1 (sampling fluctuation, n close to p) only the solver-independent obligations are judged (class beyond_singular_ratio_1e3)"),
+            format!("PCA exposes no convergence flag, so no run is skipped as unconverged: a result whose components are not eigenvectors of the reference covariance (residual > {RESID_MAX:e} relative to the Rayleigh quotient) is a failure; inside 5k > p (LOBPCG block not small against the dimension) it carries the pca:solver-breakdown:* signatures (known findings), elsewhere pca:not-converged"),
+            "exactly k components are expected inside the design domain (the solver's rank cut-off pinned by test_explained_variance_cutoff is far below it)".into(),
+            "trusted base: ndarray, vengine::num::{covariance, jacobi_eigh, col_means}".into(),
         ],
         subs: vec![
-            prop_sub("pca", 800, 15000, case_strategy, check_pca).chunks(16),
+            prop_sub("pca", 20_000, 400_000, case_strategy, check_pca)
+                .chunks(16)
+                .require(&["judged_spectral", "judged_spectral_k<p_clear_gap", "whiten", "k=1", "k=p"]),
             enum_sub("errors", |t: Tier| err_cases(t), check_errors).chunks(2),
         ],
     }
